@@ -22,6 +22,7 @@ type StreamCfg struct {
 	Container  bool // top-level value is a container
 	NoDupKeys  bool // keys within one object are distinct
 	NoTypedAnn bool // never announce a BaseType other than AnyType
+	ExtHeavy   bool // over-weight extended events
 }
 
 type streamGen struct {
@@ -88,7 +89,11 @@ func (g *streamGen) value(t *rapid.T, depth int, out *[]model.Ev) {
 	case w < 50:
 		g.scalar(t, out, "")
 	default:
-		g.container(t, depth, out, (w-50)/13)
+		kind := (w - 50) / 13
+		if g.cfg.ExtHeavy && kind < 2 && w%2 == 0 {
+			kind += 2
+		}
+		g.container(t, depth, out, kind)
 	}
 }
 
